@@ -374,7 +374,7 @@ def harvest(ctx, rep, f_ga, f_sh):
             else:
                 cls = dict(GA=GeneticAlgorithm, SelfCGA=SelfCGA, PDPGA=PDPGA)[kind]
                 opt = cls(obj, iters=4, pop_size=pop, str_len=n, tour_size=tour, parents_num=parents, mutation_rate=rate,
-                          random_state=seed, **kw)
+                          random_state=seed, elitism=bool(seed % 3), **kw)
                 orig = opt._get_new_individ_g
 
                 def w(sn, cn, mn, orig=orig, opt=opt):
